@@ -26,6 +26,16 @@ CHECKS = {
         note='Trusted: Lean kernel; standard axioms; datetime/calendar/dateutil are externals modelled in Lean and validated by correspondence; '
              'TODAY depends on the system clock and is measured against date.today(), not proved (partial for that clause).',
         technique='Lean 4 proof over hand model + differential correspondence + independent calendar oracle', design='5/C15'),
+    'C16': dict(
+        text='Lean 4 theorems over the model of the repaired helpers (print the double with 15 significant digits, round the decimal with '
+             'quantize, convert back): the three integer rounding modes are floor / ceiling / nearest-ties-away (bracketing inequalities), '
+             'exact values are fixed points in every mode, rounding is sign-symmetric, and for every decimal x whose 15-digit print recovers it '
+             '(Recovers x: proved as E2P.dec15_recover when that lemma file is present, otherwise checked by the driver on every generated case) '
+             'the helper returns rn(quantize x n) - the double nearest to the exact decimal result. Percent = rn(round15(rn(x/100))). '
+             'Tie B: decimal grid incl. every tie x digit counts -3..6 x 3 modes, integers, percent via real formulas, literals/cells/overrides.',
+        note="Trusted: Lean kernel; standard axioms; float(str), '{:.15g}' and decimal.quantize are externals modelled as rn / round15 / integer rounding "
+             "(cross-checked per case, flags rn-bad / recover-bad); exponent range, NaN, inf, -0.0 not modelled. Partial: round_spec carries the hypothesis Recovers x.",
+        technique='Lean 4 proof over hand model (exact rationals for doubles) + differential correspondence', design='5/C16'),
 }
 
 NOT_YET = 'check not built yet (work in progress; will be claimed when its Lean model, theorems and correspondence are green)'
